@@ -6,28 +6,11 @@ FAMILY = "mc.families.c04"
 
 
 def run(tier, seed, jobs):
-    from ..explore import run_family
-
     res = _run_a(tier, seed, jobs)
-    bound = 1 if tier == "quick" else 2
-    cfg = [dict(threads={"bound": bound, "mode": "loop-main"}, eager=False, salt=1)]
-    cov, viol, harness = run_family("mc.families.c04_threads", tier, cfg, jobs,
-                                    max_execs=500 if tier == "quick" else 50000, seed=seed)
-    for v in viol:
-        v["signature"] = v["what"][0].split(":", 1)[-1][:100]
-    res["coverage"]["worker_thread_scenarios"] = {
-        "what": "to_thread.run_sync (worker polling from_thread.check_cancelled / gated) inside "
-                "a shielded scope below the cancelled one, every thread schedule with at most "
-                f"{bound} preemption(s) (engine B)",
-        "programs": cov["programs"], "evaluations": cov["evaluations"],
-        "distinct_outcome_classes": cov["distinct_outcome_classes"],
-        "capped_programs": cov["capped_programs"]}
-    res["coverage"]["evaluations"] += cov["evaluations"]
-    res["coverage"]["exhaustive"] = bool(res["coverage"].get("exhaustive") and not viol
-                                         and not cov["capped_programs"])
-    res["violations"].extend(viol)
-    res["harness_errors"].extend(harness)
-    return res
+    return c01.add_thread_scenarios(
+        res, "mc.families.c04_threads", tier, seed, jobs,
+        "to_thread.run_sync (worker polling from_thread.check_cancelled / gated) inside a "
+        "shielded scope below the cancelled one")
 
 
 def _run_a(tier, seed, jobs):
